@@ -1074,7 +1074,7 @@ class PDFType3Font(PDFSimpleFont):
         if "FontDescriptor" in spec:
             descriptor = dict_value(spec["FontDescriptor"])
         else:
-            descriptor = {"Ascent": 0, "Descent": 0, "FontBBox": spec["FontBBox"]}
+            descriptor = {"Ascent": 0, "Descent": 0, "FontBBox": spec.get("FontBBox")}
         PDFSimpleFont.__init__(self, descriptor, widths, spec)
         font_matrix = [resolve1(v) for v in list_value(spec.get("FontMatrix"))]
         matrix = safe_matrix(*font_matrix) if len(font_matrix) == 6 else None
